@@ -16,7 +16,7 @@ use std::panic::{AssertUnwindSafe, catch_unwind};
 use std::sync::{Arc, Barrier};
 
 thread_local! {
-    static PANIC: RefCell<Option<(String, String)>> = const { RefCell::new(None) };
+    static PANIC: RefCell<Option<(String, String, String)>> = const { RefCell::new(None) };
 }
 
 fn hex_decode(s: &str) -> Vec<u8> {
@@ -226,9 +226,10 @@ fn compile_inner(job: &Value) -> Value {
     }
     if o["status"] == "panic" {
         let p = PANIC.with(|p| p.borrow_mut().take());
-        if let Some((msg, loc)) = p {
+        if let Some((msg, loc, frame)) = p {
             o.insert("panic_msg".into(), json!(msg));
             o.insert("panic_loc".into(), json!(loc));
+            o.insert("panic_fn".into(), json!(frame));
         }
     }
     o.insert("events".into(), events_json());
@@ -288,7 +289,7 @@ fn numfmt(job: &Value) -> Value {
                 Ok(s) => json!(s),
                 Err(_) => {
                     let p = PANIC.with(|p| p.borrow_mut().take());
-                    json!({"panic": p.map(|p| format!("{} @ {}", p.0, p.1))})
+                    json!({"panic": p.map(|p| format!("{} @ {} in {}", p.0, p.1, p.2))})
                 }
             });
         }
@@ -364,10 +365,21 @@ fn main() {
                 info.payload().downcast_ref::<&str>().map(|s| (*s).to_string())
             })
             .unwrap_or_default();
+        // First frame inside rsass (function path without the hash).
+        let bt = std::backtrace::Backtrace::force_capture().to_string();
+        let frame = bt
+            .lines()
+            .filter_map(|l| l.trim().split_once(": ").map(|x| x.1))
+            .find(|f| {
+                (f.starts_with("rsass::") || f.starts_with("<rsass::"))
+                    && !f.contains("verif")
+            })
+            .unwrap_or("")
+            .to_string();
         let _ = PANIC.try_with(|p| {
             if let Ok(mut p) = p.try_borrow_mut() {
                 if p.is_none() {
-                    *p = Some((msg, loc));
+                    *p = Some((msg, loc, frame));
                 }
             }
         });
